@@ -365,7 +365,15 @@ class SimRawIO(io.RawIOBase):
 # a consumer opens the file ("the copy this consumer sees").
 # --------------------------------------------------------------------------
 
+_SPANS_MEMO = [None, None]
+
+
 def _spans(data):
+    # (the same stored file is usually asked about many times in a row: a
+    # pure function of `data`, remembered for the last one only)
+    if _SPANS_MEMO[0] is not None and _SPANS_MEMO[0] == data:
+        return list(_SPANS_MEMO[1])
+
     spans = []
     partial = []
 
@@ -376,6 +384,8 @@ def _spans(data):
     except Exception:
         pass
 
+    _SPANS_MEMO[0] = bytes(data)
+    _SPANS_MEMO[1] = list(spans)
     return spans
 
 
